@@ -123,6 +123,7 @@ type SegmentFileReader struct {
 	deRecToTlv         []uint16 // deRecToTlv[recNum] --> dWordIdx
 	blockSummaries     []*structs.BlockSummary
 	someBlksAbsent     bool // this is used to not log some errors
+	colAbsentInBlock   bool // the block asked for last does not have this column; nothing of it is loaded
 	allBmi             *structs.AllBlksMetaInfo
 }
 
@@ -327,14 +328,20 @@ func (sfr *SegmentFileReader) ReturnBuffers() error {
 func (sfr *SegmentFileReader) readBlock(blockNum uint16) (bool, error) {
 	validBlock, err := sfr.loadBlockUsingBuffer(blockNum)
 	if !validBlock {
+		// The buffers still hold the block that was read before. Forget it, so that
+		// its records are not handed out as the records of this block.
+		sfr.isBlockLoaded = false
+		sfr.colAbsentInBlock = true
 		return false, ErrColumnNotInBlock
 	}
 	if err != nil {
+		sfr.isBlockLoaded = false
 		return true, ErrReadBlock
 	}
 
 	sfr.currBlockNum = blockNum
 	sfr.isBlockLoaded = true
+	sfr.colAbsentInBlock = false
 	return true, nil
 }
 
@@ -410,6 +417,11 @@ func (sfr *SegmentFileReader) loadBlockUsingBuffer(blockNum uint16) (bool, error
 
 // Returns the raw bytes of the record in the currently loaded block
 func (sfr *SegmentFileReader) ReadRecord(recordNum uint16) ([]byte, error) {
+	if sfr.colAbsentInBlock {
+		// no record of this block has the column
+		return nil, nil
+	}
+
 	// if dict encoding, we use the dictmapping
 	if sfr.encType == sutils.ZSTD_DICTIONARY_BLOCK[0] {
 		ret, err := sfr.deGetRec(recordNum)
